@@ -1,0 +1,23 @@
+/*
+ * Verification hooks, only compiled when HWLOC_VERIF is defined.
+ * With the guard off this header declares nothing.
+ */
+
+#ifndef PRIVATE_VERIF_H
+#define PRIVATE_VERIF_H
+
+#ifdef HWLOC_VERIF
+
+#include "hwloc/bitmap.h"
+
+/* Internal representation of a bitmap: number of valid words, number of allocated
+ * words, the infinite flag and the word array (owned by the bitmap).
+ * Returns 0, or -1 if set is NULL.
+ */
+HWLOC_DECLSPEC int hwloc_verif_bitmap_repr(hwloc_const_bitmap_t set,
+					   unsigned *countp, unsigned *allocatedp, int *infinitep,
+					   const unsigned long **ulongsp);
+
+#endif /* HWLOC_VERIF */
+
+#endif /* PRIVATE_VERIF_H */
